@@ -239,10 +239,10 @@ def judge(cfg, sysd, exp, res, choices):
             pts = np.array([p for an, p, g in by_res[key]])
             cog = pts.mean(axis=0)
             want = exp["centres"][key]
-            if np.abs(cog - want).max() > 1e-9:
+            if not np.abs(cog - want).max() <= 1e-9:
                 bad("centre-only-residue-backmapped-around-its-centre", f"residue {key}: centre of geometry {cog.tolist()} given centre {want.tolist()}")
             fpts = np.array([g[3] for an, p, g in by_res[key]])
-            if np.abs(fpts.mean(axis=0) - want).max() > 5e-4 * 1.0001 + 1e-9:
+            if not np.abs(fpts.mean(axis=0) - want).max() <= 5e-4 * 1.0001 + 1e-9:
                 bad("centre-only-residue-backmapped-around-its-centre", f"residue {key}: file centre {fpts.mean(axis=0).tolist()} given {want.tolist()}")
     for key in want_built:
         for an, p, g in by_res[key]:
